@@ -800,6 +800,7 @@ Definition c4_trap_cli (e : c4_exn) (warnings : bool) : N :=
    so QPDFExc, QPDFUsage, QPDFSystemError and every other std::runtime_error leave as std::runtime_error, while a
    std::logic_error (or anything else) thrown below passes through UNTRANSLATED.  The one place below where the input
    decides whether a precondition of the library holds is JSONReactor::replaceObject -> QPDF::replaceObject:
+       "value":  if (replacement.isIndirect()) { error(...); return true; }            (fix 4e9cbd25)
        reactor:  if (replacement.isIndirect() && !(replacement.isStream() && replacement.getObjGen() == og)) { error(...); return; }
        library:  if (!oh || (oh.isIndirect() && !(oh.isStream() && oh.getObjGen() == og))) throw std::logic_error(...)
    The model keeps, per object id, whether the object is a stream at the moment a member is processed (isStream()
@@ -856,10 +857,11 @@ Definition c4_jmember_step (og : N * N) (s : c4_jst) (m : c4_jmember) : c4_jst :
   | C4eNone =>
     match m with
     | C4jValRef n g =>
-      let s1 := mkC4jst (c4js_tbl s) (c4js_err s) (c4js_refused s) (c4js_exn s)
-                        true (c4js_stream s) (c4js_dict s) (c4js_data s) (c4js_datafile s) (c4js_needs s) in
-      (* accepted only for the stream itself: QPDF::replaceObject(og, <handle of og>) - the stream is gone (C14-F4) *)
-      c4_jreplace og (mkC4jrepl true true (c4_jis_stream (c4js_tbl s) (n, g)) (c4_jog_eqb (n, g) og)) false s1
+      (* since fix 4e9cbd25 (C14-F4) the "value" member tests replacement.isIndirect() itself and reports the error before
+         JSONReactor::replaceObject is called: every reference is refused, also the one to the stream itself (which
+         replaceObject's own test would let through - that exception is meant for the stream created for "stream") *)
+      mkC4jst (c4js_tbl s) true (c4js_refused s + 1) (c4js_exn s)
+              true (c4js_stream s) (c4js_dict s) (c4js_data s) (c4js_datafile s) (c4js_needs s)
     | C4jValDirect ok =>
       let s1 := mkC4jst (c4js_tbl s) (c4js_err s || negb ok) (c4js_refused s) (c4js_exn s)
                         true (c4js_stream s) (c4js_dict s) (c4js_data s) (c4js_datafile s) (c4js_needs s) in
@@ -938,3 +940,14 @@ Definition c4_png_ctor (fixed decode : bool) (limit columns spp bps : Z) : optio
       if ((bpr =? 0) || negb ((if fixed then bpr + 1 else bpr) <? 4294967296))%Z then None
       else if ((0 <? limit) && (limit / 2 <? bpr))%Z then None
       else Some (mkC4png bpr ((bpr + 1) mod 4294967296)%Z (if decode then ((bpr + 1) mod 4294967296)%Z else bpr)).
+
+(* does the entry "obj:n g R": { members } leave a NEW stream (the object was no stream before) for which neither "data" nor
+   "datafile" was seen, without any error having been reported?  Such a stream has no data provider: every later use
+   (QPDFWriter::write, JSON output, getStreamData) throws std::logic_error("pipeStreamData called for stream with no data").
+   containerEnd is meant to exclude it ("new stream must have exactly one of data or datafile"), but the flag it tests,
+   this_stream_needs_data, is assigned again by every "stream" member of the entry (finding C04-F-json-dup-stream). *)
+Definition c4_jentry_dataless (tbl : list (N * N)) (og : N * N) (ms : list c4_jmember) : bool :=
+  let s0 := mkC4jst tbl false 0 C4eNone false false false false false false in
+  let s1 := fold_left (c4_jmember_step og) ms s0 in
+  negb (c4_jis_stream tbl og) && c4_jis_stream (c4js_tbl s1) og &&
+  negb (c4js_data s1) && negb (c4js_datafile s1) && negb (c4js_err s1 || c4_jentry_end_err s1).
